@@ -17,7 +17,10 @@ K2 = "K2-eps-2pi-scale/tools.ubi_to_u_and_eps"
 
 
 def units(tier):
-    return [(i, 1250) for i in range(8)] if tier == "quick" else [(i, 40000) for i in range(16)]
+    if tier == "quick":
+        return [(i, 1250) for i in range(8)]
+    # plain generation for the bulk, plus four small units in which Hypothesis hill-climbs on the residual/tolerance ratios
+    return [(i, 40000) for i in range(16)] + [("target-%d" % i, 2500) for i in range(4)]
 
 
 def strategy(tier, unit):
